@@ -38,10 +38,28 @@ Proof.
 Qed.
 Print Assumptions C28_cass_parse_codec.
 
+(* second clause, from the parsed hierarchy on: printing the python list that a type's CQL name denotes gives back the
+   canonical CQL name (", " separators), with or without frozen markers.  The string -> list direction (re.Scanner +
+   ast.literal_eval) is tied by correspondence only. *)
+Theorem C28_cql_roundtrip_print : forall fz t,
+  python_to_cqltype (to_py fz t) = cql_name_gen (lit "vector") comma_sp fz t.
+Proof. exact print_to_py. Qed.
+Print Assumptions C28_cql_roundtrip_print.
+
+(* third clause: _strip_frozen_from_python removes exactly the frozen markers, at every depth: the result is the hierarchy
+   of the same type printed without markers, and printing it gives the marker-free name *)
+Theorem C28_strip_frozen : forall t, wf_cql t = true ->
+  strip_frozen_from_python (to_py true t) = Some (to_py false t) /\
+  python_to_cqltype (to_py false t) = cql_name_gen (lit "vector") comma_sp false t.
+Proof. intros t H. split; [apply strip_to_py; assumption|apply print_to_py]. Qed.
+Print Assumptions C28_strip_frozen.
+
 Example C28_nonvacuous :
   let t := TMap (TSimple SInt) (TFrozen (TList (TUdt (lit "ks") (lit "abcd") [lit "f1"; lit "g"]
                                                 [TSimple SText; TReversed (TTuple [TSimple SFloat; TSet (TSimple SUuid)])]))) in
   wf t = true /\ vector_free t = true /\
   show (spec_cql_name t) = "map<int, frozen<list<frozen<abcd>>>>"%string /\
-  c28_check_cass t = true.
+  c28_check_cass t = true /\ wf_cql t = true /\
+  cqltype_to_python (spec_cql_name t) = Some (to_py true t) /\
+  option_map show (strip_frozen (spec_cql_name t)) = Some "map<int, list<abcd>>"%string.
 Proof. vm_compute. repeat split; reflexivity. Qed.
